@@ -48,7 +48,7 @@ EXAMPLES = ['Net1.inp', 'Net2.inp', 'Net3.inp']
 
 
 # appended to RULE in the evidence (vlib/runner.py)
-RULE_ADDENDUM = 'Added in rounds 4-5: any start clock time (noon and midnight hours over-weighted), clock-time controls at times the run passes, rules on the time of day (windows across midnight), the default demand pattern; pattern interpolation is switched off (not a common feature).'
+RULE_ADDENDUM = 'Added in rounds 4-5: any start clock time (noon and midnight hours over-weighted), clock-time controls at times the run passes, rules on the time of day (windows across midnight), the default demand pattern; pattern interpolation is switched off (not a common feature). Round 6: control-valve stations (Active TCV/PRV/FCV with a normally closed by-pass) as the only way into a storage-less zone; Tank.overflow switched off.'
 
 def n_cases(tier):
     return 240 if tier == 'quick' else 3200
